@@ -105,6 +105,7 @@ func (ds *AnySource) RunDoneDeactivate() {
 	ds.sourceStateLock.Lock()
 	ds.sourceState = Inactive
 	verifPoint("run.deactivate")
+	verifSync("close", "rundone", ds.runDoneChan)
 	close(ds.runDoneChan)
 	verifSync("wgdone", "rund", &ds.runDone)
 	ds.runDone.Done()
@@ -284,10 +285,14 @@ func (ds *AnySource) Stop() error {
 	verifPoint("stop.switched")
 	verifSync("close", "abort", ds.abortSelf)
 	closeIfOpen(ds.abortSelf)
+	runDone := ds.runDoneChan // the run this call is stopping; a later Start makes a new channel
 	ds.sourceStateLock.Unlock()
 
 	verifPoint("stop.beforeWait")
-	ds.RunDoneWait()
+	// Wait for THIS run to be done. (runDone.Wait() on the reused WaitGroup could attach a delayed
+	// Stop to a run started after it, which it would then wait for - and "clean up" when that ended.)
+	<-runDone
+	verifSync("recvc", "rundone", runDone)
 	verifPoint("stop.waited")
 	ds.groupKeysSorted = make([]GroupIndex, 0)
 	verifAcc("wsa", &ds.writingState, false)
